@@ -79,6 +79,8 @@ Fabitn(n, i, l) ==
   \* 3 RHO test combinations, masked by 3 RHO + RHO discarded bits (fix: aBit test masking, DESIGN 11)
   LET m == l + 4 * RHO IN
   << [k \in 1..(n - 1) |-> OtChain(i, Peers(n, i)[k], m)] >>
+  \* the test combinations are expanded from a coin toss made after the OTs (fix, DESIGN 11)
+  \o Broadcast(n, i, "RNG comm", 40) \o << UniG(n, i, "RNG ver", 40) >>
   \o << UniG(n, i, "fabitn", 8 + 17 * 3 * RHO) >> \o BcastVer(n, i, "fabitn")
 
 Fashare(n, i, l) ==
